@@ -17,6 +17,7 @@ import (
 	"os"
 	"strings"
 	"sync"
+	"sync/atomic"
 	"testing"
 	"time"
 
@@ -720,6 +721,7 @@ func TestC11_Rebalance(t *testing.T) {
 	})
 	out := make([]string, len(scs))
 	disc := make([]bool, len(scs))
+	var retried atomic.Int64
 	var wg sync.WaitGroup
 	sem := make(chan struct{}, 5)
 	for i := range scs {
@@ -729,9 +731,19 @@ func TestC11_Rebalance(t *testing.T) {
 			sem <- struct{}{}
 			defer func() { <-sem }()
 			out[i], disc[i] = c11Exec(scs[i])
+			if !disc[i] && strings.Contains(out[i], "but the stream was closed") {
+				// one close/reopen cycle too many can also come from a timer of the library firing late on a loaded machine
+				// (a notification during the close is kept as a timer; fired after the reopen it starts a cycle of its own):
+				// a schedule the harness does not own. Only a count that repeats in a second execution is reported.
+				retried.Add(1)
+				out[i], disc[i] = c11Exec(scs[i])
+			}
 		}(i)
 	}
 	wg.Wait()
+	for k := int64(0); k < retried.Load(); k++ {
+		countDiscarded("C11")
+	}
 	for i, d := range out {
 		if strings.HasPrefix(d, "HARNESS") {
 			t.Fatalf("harness trouble: %s (%+v)", d, scs[i])
